@@ -25,6 +25,9 @@ EvList(run) ==
           \o Unfold(o, n)
           \o (IF o.reads > ReadsAt(o, n) THEN <<[t |-> "getc", k |-> o.reads - ReadsAt(o, n)]>> ELSE <<>>)
           \o <<[t |-> "return", ok |-> ok, after |-> <<>>, net |-> o.net, netclear |-> o.net, links |-> 0]>>
+     ELSE IF run.a = "folder"       \* mpt_parse_folder: heap blocks and descriptors left behind count alike
+     THEN <<[t |-> "start", len |-> 0, before |-> <<>>],
+            [t |-> "return", ok |-> ok, after |-> <<>>, net |-> o.net + o.fds, netclear |-> o.net + o.fds, links |-> 0]>>
      ELSE <<[t |-> "start", len |-> o.len, before |-> o.fbefore]>>
           \o (IF o.reads > 0 THEN <<[t |-> "getc", k |-> o.reads]>> ELSE <<>>)
           \o <<[t |-> "return", ok |-> ok, after |-> o.ftree, net |-> o.net, netclear |-> o.netclear, links |-> o.links]>>
